@@ -79,7 +79,10 @@ QuotesAt(t) == [a \in Assets |-> [bid |-> QuoteAt(frame[a], t), ask |-> QuoteAt(
 
 (* ---------------- universe, alpha ---------------- *)
 EntryOf(a)    == IF a \in DOMAIN Cfg.entry THEN Cfg.entry[a] ELSE -1                \* -1 : never a member
-UniverseAt(t) == { a \in Assets : EntryOf(a) # -1 /\ EntryOf(a) <= t }             \* static = entry 0 for every member
+\* optional: assets that LEAVE the universe (a delisting, a user-defined Universe): member from its entry instant up to,
+\* not including, its exit instant (0 / absent = never leaves)
+ExitOf(a)     == IF "exit" \in DOMAIN Cfg /\ a \in DOMAIN Cfg.exit THEN Cfg.exit[a] ELSE 0
+UniverseAt(t) == { a \in Assets : EntryOf(a) # -1 /\ EntryOf(a) <= t /\ (ExitOf(a) = 0 \/ t < ExitOf(a)) }   \* static = entry 0 for every member
 HasSignals == Cfg.alpha = "topn"
 \* the universe's own iteration order (the harness builds universes in ascending symbol order)
 UniverseSeq(t) == SelectSeq(AssetSeq, LAMBDA a : a \in UniverseAt(t))
@@ -274,9 +277,9 @@ C08_FillPrice ==
 C19_Membership ==
   Cfg.alpha = "single" =>
     /\ \A i \in 1..Len(allocs) : \A a \in DOMAIN allocs[i].w :
-         allocs[i].w[a] # 0 => EntryOf(a) # -1 /\ EntryOf(a) <= allocs[i].t
+         allocs[i].w[a] # 0 => a \in UniverseAt(allocs[i].t)
     /\ \A i \in 1..Len(allocs) : \A a \in Assets :
-         (EntryOf(a) # -1 /\ EntryOf(a) <= allocs[i].t) =>
+         a \in UniverseAt(allocs[i].t) =>
              (a \in DOMAIN allocs[i].w /\ (allocs[i].w[a] # 0 \/ ("rset" \in DOMAIN Cfg /\ a \in Cfg.rset)))   \* unless the risk model vetoes it
     /\ \A i \in 1..Len(flog) : EntryOf(flog[i].asset) # -1 /\ EntryOf(flog[i].asset) <= flog[i].t
     /\ \A a \in DOMAIN pos[PID] : EntryOf(a) # -1 /\ EntryOf(a) <= now
